@@ -407,7 +407,7 @@ def jobs(tier, seed):
     return out
 
 
-BUDGET = {"quick": None, "thorough": 20 * 60}
+BUDGET = {"quick": None, "thorough": 12 * 60}
 
 if __name__ == "__main__":
     from symx import runner
